@@ -135,12 +135,19 @@ static bool run_child(const Scenario& sc, const std::vector<int>& prefix, bool s
 
 static std::vector<Scenario> scenarios(bool th) {
 	std::vector<Scenario> v; auto& FS = vm_flagsets();
-	auto V = [&](int f, int x) { return ThreadProg{ { { 0, f, 0, 0 }, { 1, x, 0, 0 }, { 2, 0, 0, 0 } } }; };
+	auto V = [&](int f, int x, bool v2 = false) { return ThreadProg{ { { 0, f | (v2 ? RANDOMX_FLAG_V2 : 0), 0, 0 }, { 1, x, 0, 0 }, { 2, 0, 0, 0 } } }; };
 	// all ordered pairs of flag sets sharing the cache / the dataset (quick: each set with itself and with its ring neighbour)
 	for (size_t i = 0; i < FS.size(); ++i) for (size_t j = 0; j < FS.size(); ++j) {
 		if (!th && !(i == j || j == (i + 5) % FS.size())) continue;
 		v.push_back({ std::string("V(") + FS[i].name + ") || V(" + FS[j].name + ")", { V(FS[i].flags, 0), V(FS[j].flags, (int)((i + j) % 3)) } });
 	}
+	// mixed algorithm versions on different threads (each thread's VM is its own; per-version state must not be process-wide)
+	for (size_t i = 0; i < FS.size(); ++i) {
+		if (!th && (FS[i].flags & RANDOMX_FLAG_SECURE)) continue;
+		size_t j = th ? (i + 3) % FS.size() : i;
+		v.push_back({ std::string("V(") + FS[i].name + ",v1) || V(" + FS[j].name + ",v2)", { V(FS[i].flags, 1, false), V(FS[j].flags, 1, true) } });
+	}
+	v.push_back({ "V(jit-soft-light,v2) || V(jit-hard-fast,v2)", { V(RANDOMX_FLAG_JIT, 0, true), V(RANDOMX_FLAG_JIT | RANDOMX_FLAG_HARD_AES | RANDOMX_FLAG_FULL_MEM, 2, true) } });
 	// dataset initialisation on disjoint ranges from one cache: blocks of a partition, incl. <4-item and remainder blocks side by side
 	uint64_t N = randomx::DatasetSize / 64;
 	for (int which = 0; which < 2; ++which) {
